@@ -2,6 +2,7 @@
 
 use vcore::runner::{unhex, Mode, Report, Tier};
 
+mod c07;
 mod c08;
 mod c09;
 mod c10;
@@ -29,6 +30,7 @@ fn main() {
     vcore::jq::install_panic_hook();
     let report = Report::new(&id, tier, mode);
     match id.as_str() {
+        "C07" => c07::run(report),
         "C08" => c08::run(report),
         "C09" => c09::run(report),
         "C10" => c10::run(report),
